@@ -843,10 +843,20 @@ where
                 return;
             }
 
+            // The count was observed to be zero outside the lock. Until the lock is held, a lookup may
+            // have taken a new reference (and re-acquired the record): release only if it is still unused.
             match E::release() {
                 Op::Noop => {}
-                Op::Immutable(_) => shard.read().with(|shard| shard.release_immutable(&self.record)),
-                Op::Mutable(_) => shard.write().with(|mut shard| shard.release_mutable(&self.record)),
+                Op::Immutable(_) => shard.read().with(|shard| {
+                    if self.record.refs() == 0 {
+                        shard.release_immutable(&self.record)
+                    }
+                }),
+                Op::Mutable(_) => shard.write().with(|mut shard| {
+                    if self.record.refs() == 0 {
+                        shard.release_mutable(&self.record)
+                    }
+                }),
             }
         }
     }
